@@ -77,8 +77,16 @@ Definition g2_ok (st : sess) (n : nat) : bool :=
        (dict.update loses the original key);
    g3  add() of an object that _restore_snapshot sent back to transient while its _deleted flag stayed set;
    g5  delete() of an object that is already in the deleted state (it is put back into the identity map);
-   g6  close() while an object is in the deleted state (expunge_all does not detach it). *)
+   g6  close() while an object is in the deleted state (expunge_all does not detach it).
+   Not a defect, a limit of what is proved: after a failed flush (innermost transaction DEACTIVE) the
+   object operations new/add/assign/delete are outside the guard until the transaction is rolled back
+   (the implementation discards such changes with a warning; covered by the correspondence only). *)
+(* the innermost transaction is usable (not waiting for rollback() after a failed flush) *)
+Definition head_usable (st : sess) : bool :=
+  match stack st with f :: _ => tstate_eqb (fstate f) ACTIVE | [] => true end.
+
 Definition guard (st : sess) (p : op) : bool :=
+  (match p with ONew _ _ | OAdd _ | OSetV _ _ | OSetPK _ _ | ODel _ => head_usable st | _ => true end) &&
   match p with
   | OTRollback h =>
       match nth_error (handles st) h with
